@@ -1339,6 +1339,55 @@ def restore_field_names(syn):
                         fld[0] = ren[fld[0]]
     return out
 
+
+# Renamed constants (the same positional scheme): per module the `const` items of the pinned tree in order with their types
+# (tables/consts.json).  Same number, same types in the same order, some names that the pinned tree does not have anywhere: renamed.
+def restore_const_names(syn):
+    """-> [(module, current name, pinned name)]"""
+    if os.environ.get("VERIF_NO_NORMALISE"):
+        return []
+    try:
+        table = load_table("consts.json")["mods"]
+    except Exception:
+        return []
+    by_mod = defaultdict(list)
+    for k_, c_ in syn.consts.items():
+        if "::" in k_ and c_.get("k") == "const" and c_.get("mod") is not None and k_ == c_["mod"] + "::" + c_["name"]:
+            by_mod[c_["mod"]].append(c_)
+    pinned_all = {n_ for l_ in table.values() for n_, _ in l_}
+    cur_all = Counter(c_["name"] for l_ in by_mod.values() for c_ in l_)
+    out = []
+    for mod_, cs in by_mod.items():
+        cs.sort(key=lambda c_: c_.get("ln", 0))
+        pinned = table.get(mod_)
+        if not pinned or len(pinned) != len(cs) or [re.sub(r"\s+", "", t_) for _, t_ in pinned] != [re.sub(r"\s+", "", str(c_.get("ty", ""))) for c_ in cs]:
+            continue
+        pairs = [(c_, p_[0]) for c_, p_ in zip(cs, pinned) if c_["name"] != p_[0]]
+        if not pairs or any(c_["name"] in pinned_all or cur_all[c_["name"]] != 1 or cur_all.get(old, 0) for c_, old in pairs):
+            continue
+        for c_, old in pairs:
+            out.append((mod_, c_["name"], old))
+    if not out:
+        return out
+    ren = {new: old for _, new, old in out}
+    for mod_, new, old in out:
+        c_ = syn.consts.pop(mod_ + "::" + new)
+        if syn.consts.get(new) is c_:
+            syn.consts.pop(new)
+        c_["name"] = old
+        syn.consts[mod_ + "::" + old] = c_
+        syn.consts.setdefault(old, c_)
+    roots = [f["body"] for f in syn.fns if f.get("body")] + [c_["e"] for c_ in syn.consts.values() if isinstance(c_.get("e"), dict)]
+    for root in roots:
+        for n in walk(root):
+            if n.get("k") in ("path", "ppath") and isinstance(n.get("p"), str):
+                last = n["p"].split("::")[-1]
+                if last in ren:
+                    n["p"] = n["p"][:len(n["p"]) - len(last)] + ren[last]
+            elif n.get("k") == "pident" and n.get("name") in ren and n["name"].isupper():
+                n["name"] = ren[n["name"]]          # a constant used as a pattern
+    return out
+
 class Syn:
     def __init__(self, path):
         with open(path) as fh:
@@ -1349,6 +1398,10 @@ class Syn:
         self.consts = {}
         self.impls = []
         self._index(self.root["items"], None)
+        try:
+            self.restored_consts = restore_const_names(self)
+        except Exception:           # a device must never take the checks down with it
+            self.restored_consts = []
         self.restored_fields = restore_field_names(self)
         self.restored_fns = restore_private_fn_names(self)
         self.restored_locals = restore_local_names(self)
